@@ -186,6 +186,43 @@ fn raw_set(l: &[N]) -> Vec<i64> {
         .collect()
 }
 
+/// Does the list hold an hbox whose glue ratio prints as 16384 or more (finding C18-e: written
+/// by `Display for GlueRatio`, rejected by the pre-fix `from_float_str`)?
+fn has_big_ratio(l: &[N]) -> bool {
+    l.iter().any(|n| {
+        let here = match n {
+            N::HBox { num, den, .. } => ratio_text(*num, *den)
+                .split('.')
+                .next()
+                .and_then(|i| i.parse::<i64>().ok())
+                .map(|i| i >= 16384)
+                .unwrap_or(false),
+            _ => false,
+        };
+        here || n.children().iter().any(|c| has_big_ratio(c))
+    })
+}
+
+/// A quoted number of 16384..=32767 in a source text (same finding, on the `src` streams).
+fn has_big_ratio_string(text: &str) -> bool {
+    let cs: Vec<char> = text.chars().collect();
+    (0..cs.len()).any(|i| {
+        if cs[i] != '"' {
+            return false;
+        }
+        let mut j = i + 1;
+        if cs.get(j) == Some(&'-') {
+            j += 1;
+        }
+        let st = j;
+        while cs.get(j).map(|c| c.is_ascii_digit()).unwrap_or(false) {
+            j += 1;
+        }
+        let digits: String = cs[st..j].iter().collect();
+        digits.parse::<i64>().map(|v| (16384..=32767).contains(&v)).unwrap_or(false)
+    })
+}
+
 fn print_h(list: &[ds::Horizontal], style: u32) -> String {
     let mut s = String::new();
     if style == 1 {
@@ -463,10 +500,16 @@ impl C18 {
             Ok(Parsed::Err(e)) => {
                 out.tag("parse-of-printed:error");
                 if expr {
+                    let first = e.first().cloned().unwrap_or_default();
+                    let sig = if first == "IncorrectType" && e.iter().all(|x| x == "IncorrectType") && has_big_ratio(l) {
+                        "round trip: an hbox glue ratio >= 16384 is printed but not read back (C18-e)".to_string()
+                    } else {
+                        format!("round trip: parse error {first}")
+                    };
                     out.fail(
                         Kind::ImplVsSpec,
                         stream,
-                        format!("round trip: parse error {}", e.first().cloned().unwrap_or_default()),
+                        sig,
                         format!("errors {e:?}\nprinted text: {text}"),
                     );
                 }
@@ -785,6 +828,7 @@ impl C18 {
                 }
             }
         }
+        let big_ratio_str = has_big_ratio_string(text);
         let check = |name: &str, m: &str, real: Option<Result<Vec<i64>, Vec<String>>>, out: &mut CaseOutcome| {
             let m = m.split_once('=').map(|x| x.1).unwrap_or("");
             let Some(real) = real else { return };
@@ -816,7 +860,11 @@ impl C18 {
                     Err(e) => out.fail(
                         Kind::ImplVsModel,
                         stream_m,
-                        format!("{name}: model accepts, the real parser reports {}{attr}", e.first().cloned().unwrap_or_default()),
+                        format!(
+                            "{name}: model accepts, the real parser reports {}{attr}{}",
+                            e.first().cloned().unwrap_or_default(),
+                            if big_ratio_str && e.iter().all(|x| x == "IncorrectType") { " [glue ratio >= 16384 in a string, C18-e]" } else { "" }
+                        ),
                         format!("model: {ints}\nreal errors: {e:?}"),
                     ),
                 }
